@@ -505,13 +505,15 @@ func (s *Server) handlePostTx(w http.ResponseWriter, r *http.Request) {
 		return
 	}
 
-	// Ensure halt lock is held by caller.
-	if lockID, _ := strconv.ParseInt(q.Get("lockID"), 10, 64); !db.HoldsHaltLock(lockID) {
+	// Ensure halt lock is held by caller, and keep it from being released or
+	// expired until the transaction has been copied & applied.
+	lockID, _ := strconv.ParseInt(q.Get("lockID"), 10, 64)
+	unpin := db.PinHaltLock(lockID)
+	if unpin == nil {
 		Error(w, r, fmt.Errorf("halt lock not held: %q", q.Get("lockID")), http.StatusConflict)
 		return
 	}
-
-	// TODO(fwd): Prevent halt lock release during copy & apply.
+	defer unpin()
 
 	// A forwarded transaction must extend the current position. Files that
 	// start at TXID 1 are exempt from that check in WriteLTXFileAt() because
